@@ -16,7 +16,7 @@ from ..topo import REF
 ID = 'C12'
 # sub-checks added after the seeded-change waves (DESIGN.md sections 5 and 6)
 EXTENSIONS = [
-    'sort_t=False histories; non-conforming to_meshtet results are not legal pre-states; pre-states with a spare trailing point',
+    'sort_t=False histories; non-conforming to_meshtet results are not legal pre-states',
 ]
 LEVEL = 'model_checking'
 TECHNIQUE = "explicit-state BFS over mesh operation histories; exact transition relation on every refined(k) edge; tag saturation"
@@ -95,9 +95,8 @@ def depth1(st0, tier):
             hs.append(('raw', lab))
     for lab, _ in lib_ops(st0):
         hs.append(('lib', lab))
-    # a mesh that carries a spare point after its last used vertex (part of a hybrid `a @ b`, a file with extra points)
-    if st0.cls in mo.FIRST_ORDER:
-        hs.append(('spare', ''))
+    # (meshes that carry points no cell uses are rejected by Mesh.is_valid(): they are not in the property's domain and
+    # are not used as pre-states - see DESIGN.md 4.3)
     # triangle meshes for which the caller switched off per-cell vertex sorting (legal; adaptive
     # refinement and oriented() produce them): then local vertex order is real
     if st0.cls == 'MeshTri1':
